@@ -613,6 +613,8 @@ pub enum Piece {
     /// kanji + bracketed reading
     Yomi(u8, u8, u8),
     Num(String),
+    /// a string repeated n times (length-boundary families)
+    Rep(String, u32),
 }
 
 pub fn to_fullwidth(s: &str) -> String {
@@ -677,6 +679,11 @@ pub fn render_pieces(keys: &[String], pieces: &[Piece]) -> String {
                 s.push(RB[(*b as usize / 4) % RB.len()]);
             }
             Piece::Num(n) => s.push_str(n),
+            Piece::Rep(r, n) => {
+                for _ in 0..*n {
+                    s.push_str(r);
+                }
+            }
         }
     }
     s
